@@ -47,6 +47,9 @@ inductive Item where
   /-- a complete frame `_dispatch` gets through: a decodable request (answered with a reply or an
   exception by the guarded `_dispatch_request`) or a reply nobody waits for (dropped) -/
   | handled
+  /-- a complete frame whose (decompressed) payload is empty: `serve()` takes `not data` for "nothing arrived" and
+  returns False — no dispatch, no exception -/
+  | empty
   /-- a complete frame that raises out of `serve()`: payload `brine.load` rejects, not a 3-sequence,
   invalid message type, corrupt compressed data (`zlib.error` in `Channel.recv`) -/
   | bad
@@ -186,6 +189,7 @@ def consume : List Item → Cli → Nat → Cli × Nat
   | [], c, n => ({ c with inbox := [], phase := .idle }, n)
   | .req seq r :: rest, c, n => consume rest (answer c seq r n).1 (answer c seq r n).2
   | .handled :: rest, c, n => consume rest c n
+  | .empty :: rest, c, n => consume rest c n
   -- exception out of `serve_all` (its `finally` closes the connection), out of `_serve_client`, logged and
   -- re-raised by `_authenticate_and_serve_client` whose `finally` shuts the socket down and untracks it
   | .bad :: _, c, n => (endServe c, n)
@@ -203,6 +207,8 @@ def poolConsume : List Item → Cli → Nat → Cli × Nat
   | [], c, n => ({ c with inbox := [], phase := .idle }, n)
   | .req seq r :: rest, c, n => poolConsume rest (answer c seq r n).1 (answer c seq r n).2
   | .handled :: rest, c, n => poolConsume rest c n
+  -- `conn.poll()` returns False: the descriptor goes back to the poller, which reports it again if more is waiting
+  | .empty :: rest, c, n => poolConsume rest c n
   -- `except Exception: queue.put(fd); raise` → the worker's catch-all logs, sleeps and goes on: the
   -- connection stays
   | .bad :: rest, c, n => poolConsume rest c n
@@ -217,6 +223,7 @@ def dedFrames : List Item → Nat
   | [] => 0
   | .req _ _ :: r => 1 + dedFrames r
   | .handled :: r => 1 + dedFrames r
+  | .empty :: r => dedFrames r
   | .bad :: _ => 1
   | _ => 0
 
@@ -225,6 +232,7 @@ def poolFrames : List Item → Nat
   | [] => 0
   | .req _ _ :: r => 1 + poolFrames r
   | .handled :: r => 1 + poolFrames r
+  | .empty :: r => poolFrames r
   | .bad :: r => 1 + poolFrames r
   | _ => 0
 
@@ -542,10 +550,10 @@ def needsEnvPayload (data : Bytes) : Bool :=
       !numEq m Gen.Srv.msgRequest && (numEq m Gen.Srv.msgReply || numEq m Gen.Srv.msgException)
 
 def classifyFrame (env : Env) (flag : Nat) (data : Bytes) : Item :=
-  if flag = 0 then classifyPayload env data
+  if flag = 0 then (if data.isEmpty then .empty else classifyPayload env data)
   else match env.zlib data with
     | none => .bad
-    | some d => classifyPayload env d
+    | some d => if d.isEmpty then .empty else classifyPayload env d
 
 /-- `Channel.recv` repeatedly over the bytes a client wrote: header (`FRAME_HEADER`), `length + len(FLUSHER)`
 bytes, the trailing byte dropped unchecked; what is left over is an incomplete frame -/
